@@ -89,6 +89,15 @@ CHECKS += [
     },
 ]
 
+CHECKS += [
+    {
+        "property_id": "C05", "engine": "symx", "category": "model_checking",
+        "technique": "bounded symbolic execution of Analyzer, QuickSampler and Simulator with symbolic circuit parameters + z3 (all compared with one loss-marginalised Fock-amplitude reference; division-free error-rate and renormalisation identities)",
+        "text": "For all reflectivities, phases and loss values on the listed shapes, heralds with 0/1 photons (in != out allowed), 1-2 equal-photon inputs and four kinds of post-selection: the analyzer's outputs are exactly the post-selected heralded outputs, its entries equal the loss-marginalised heralded probabilities, performance is the mean accepted total and error rate one minus the accepted-and-expected fraction; the quick sampler's distribution is the reference conditioned on heralds, post-selection, no loss (and <=1 photon per mode for threshold detection) renormalised, on every threshold path; squared simulator amplitudes equal analyzer probabilities; none of the objects raises on a circuit the others accept.",
+        "design_ref": "DESIGN.md section 4 C05", "note": SYMX_NOTE,
+    },
+]
+
 _TODO = "check not built yet in this round; see DESIGN.md section 4 for the plan"
 NOT_APPLICABLE = [
     {"property_id": f"C{i:02d}", "reason": _TODO} for i in range(2, 20) if f"C{i:02d}" not in {c["property_id"] for c in CHECKS}
